@@ -42,7 +42,13 @@ def verify_switch_phases(phases, errors):
     :arg phases: A map from phase names to phases
     :arg errors: An error list to which new errors get appended
     """
-    for phase in phases.values():
+    for phase_name, phase in phases.items():
+        # The switch that happens by default at the end of a step.
+        if phase.next_phase not in phases:
+            errors.append(
+                'Phase "{}" referenced as the default successor of phase "{}" '
+                "not found".format(phase.next_phase, phase_name))
+
         for inst in phase.statements:
             if not isinstance(inst, SwitchPhase):
                 continue
@@ -156,6 +162,9 @@ def verify_code(code):
             verify_no_circular_dependencies(phase.statements, errors)
 
         verify_switch_phases(code.phases, errors)
+        if code.initial_phase not in code.phases:
+            errors.append('Initial phase "{}" not found'
+                          .format(code.initial_phase))
 
         for phase in code.phases.values():
             verify_single_definition_cond_rule(phase.statements, errors)
